@@ -40,7 +40,7 @@ for d in (8, 10, 12, 14):
 print("growth per extra level ~", round((times[14] / times[10]) ** 0.25, 2))
 
 
-class Timeout(Exception):
+class Timeout(BaseException):  # UnionNode suppresses every Exception
     pass
 
 
